@@ -141,68 +141,5 @@ func runC23(c *Ctx) {
 	}
 
 	// (2) panic provenance
-	ci := cw.TypesInfo
-	checkPos := func(fn, wantArg, construct string) {
-		fd := p.MustFunc(r2, cw, fn)
-		if fd == nil {
-			return
-		}
-		found := false
-		ast.Inspect(fd.Body, func(n ast.Node) bool {
-			call, ok := n.(*ast.CallExpr)
-			if !ok {
-				return true
-			}
-			f := CalleeOf(ci, call)
-			if f == nil || f.Name() != "Position" || !strings.HasSuffix(FuncFullName(f), "token.FileSet.Position") || len(call.Args) != 1 {
-				return true
-			}
-			arg := types.ExprString(call.Args[0])
-			if wantArg != "" && arg != wantArg {
-				if !found {
-					c.Fail(r2, construct+": position argument", p.Pos(call.Pos()), fmt.Sprintf("the position compiled into the message is Fset.Position(%s), not the position of the panicking instruction (%s)", arg, wantArg))
-					found = true
-				}
-				return true
-			}
-			if wantArg == "" && arg != "pos" {
-				return true
-			}
-			found = true
-			c.OK(r2, construct+": position argument", p.Pos(call.Pos()), "Fset.Position("+arg+")")
-			return true
-		})
-		if !found {
-			c.Fail(r2, construct+": position argument", p.Pos(fd.Pos()), "no Fset.Position(...) call found: the message carries no position")
-		}
-		// the string constant is callPos.String() and it is pushed before the runtime call
-		okString := false
-		ast.Inspect(fd.Body, func(n ast.Node) bool {
-			call, ok := n.(*ast.CallExpr)
-			if !ok || !strings.HasSuffix(types.ExprString(call.Fun), "wir.NewConst") || len(call.Args) != 2 {
-				return true
-			}
-			if types.ExprString(call.Args[0]) == "callPos.String()" {
-				okString = true
-			}
-			return true
-		})
-		c.Check(okString, r2, construct+": message constant", p.Pos(fd.Pos()), "wir.NewConst(callPos.String(), STRING)", "the position constant is not callPos.String() (file:line:column)")
-	}
-	checkPos("functionGenerator.genPanic", "panic_.Pos()", "genPanic")
-	// order: EmitStringValue(position) before the call to $runtime.panic_
-	if fd := p.MustFunc(r2, cw, "functionGenerator.genPanic"); fd != nil {
-		ctors := appendedCtors(ci, fd.Body.List, "insts", true)
-		var seq []string
-		for _, cc := range ctors {
-			switch {
-			case strings.HasSuffix(cc.Name, "EmitStringValue"):
-				seq = append(seq, "str("+strings.Join(cc.Args, ",")+")")
-			case cc.Name == "wat.NewInstCall":
-				seq = append(seq, "call("+strings.Join(cc.Args, ",")+")")
-			}
-		}
-		want := `str(av),str(s),call("$runtime.panic_")`
-		c.Check(strings.Join(seq, ",") == want, r2, "genPanic: emission order", p.Pos(fd.Pos()), want, fmt.Sprintf("genPanic emits %v; the runtime expects message, position, then the call to $runtime.panic_", seq))
-	}
+	c23PanicOrder(c, p, cw)
 }
